@@ -109,4 +109,47 @@ theorem C05_concat2_maximal (a : Align) (c1 c2 : Circuit) :
 example : concat2 .left [[⟨1, [0], [], []⟩]] [[⟨2, [1], [], []⟩], [⟨3, [0], [], []⟩]]
     = [[⟨1, [0], [], []⟩, ⟨2, [1], [], []⟩], [⟨3, [0], [], []⟩]] := by decide
 
+/-! ### `Circuit.zip` -/
+
+/-- a zip that succeeds is well-formed -/
+theorem C05_zip_wf (a : Align) (cs : List Circuit) (r : Circuit) (h : zipCircuits a cs = .ok r)
+    (ho : ∀ c ∈ cs, ∀ m ∈ c, ∀ o ∈ m, opWF o = true) : circuitWF r = true := by
+  apply circuitWF_of_mem
+  unfold zipCircuits at h
+  refine mapM_except_mem _ (fun m => momentWF m = true) ?_ _ r h
+  intro k m hk
+  refine mkMoment_wf _ m hk ?_
+  intro o hmem
+  simp only [List.mem_flatMap, List.mem_map] at hmem
+  obtain ⟨c', ⟨c, hc, rfl⟩, ho'⟩ := hmem
+  have hsub : ∀ mm, mm ∈ padTo a ((cs.map List.length).foldl max 0) c → mm = [] ∨ mm ∈ c := by
+    intro mm hmm
+    unfold padTo at hmm
+    cases a <;> simp only [List.mem_append, List.mem_replicate] at hmm <;> rcases hmm with h1 | h1
+    · right; exact h1
+    · left; exact h1.2
+    · left; exact h1.2
+    · right; exact h1
+    · left; exact h1.2
+    · right; exact h1
+  generalize hp : padTo a ((cs.map List.length).foldl max 0) c = pc at ho' hsub
+  cases hg : pc[k]? with
+  | none => simp [hg] at ho'
+  | some mm =>
+    simp only [hg, Option.getD_some] at ho'
+    rcases hsub mm (List.mem_of_getElem? hg) with rfl | hin
+    · simp at ho'
+    · exact ho c hc mm hin o ho'
+
+/-- … and as long as the longest circuit -/
+theorem C05_zip_length (a : Align) (cs : List Circuit) (r : Circuit) (h : zipCircuits a cs = .ok r) :
+    r.length = (cs.map List.length).foldl max 0 := by
+  unfold zipCircuits at h
+  simpa using mapM_except_length _ _ r h
+
+example : (zipCircuits .right [[[⟨1, [0], [], []⟩]], [[⟨2, [1], [], []⟩], [⟨3, [1], [], []⟩]]]).toOption
+    = some [[⟨2, [1], [], []⟩], [⟨1, [0], [], []⟩, ⟨3, [1], [], []⟩]] := by decide
+
+example : (zipCircuits .left [[[⟨1, [0], [], []⟩]], [[⟨2, [0], [], []⟩]]]).toOption = none := by decide
+
 end CirqVerif.C05
